@@ -22,7 +22,9 @@ META = {
             "branches open/hash/compile/Store.Add/ProgLoads/swap; 6 source kinds incl. compile failure and registration "
             "refusal) for 2 programs x 3 load attempts x 1 line and 1 program x 2 files x 2 lines; seeded random histories "
             "(loads of every kind, unloads, numeric/non-numeric lines) are run on a real runtime.Runtime and a real "
-            "mtail.Server and every hook event, driver operation and expvar reading is validated by TraceCounters.tla.",
+            "mtail.Server and every hook event, driver operation and expvar reading is validated by TraceCounters.tla; each "
+            "end-to-end run ends with a burst of appended lines nobody was woken for, a graceful shutdown, and the comparison "
+            "lines_total = sum of log_lines_total.",
     "note": "Expvars are read only at quiescent points (after vm.line.end of every program for every line, after each load "
             "returns); trusts the hook points to sit at the update sites and TLC/Json module.",
     "technique": "TLA+ spec + TLC exhaustive; recorded executions (events + expvar readings) validated by a TLA+ trace spec (B)",
